@@ -45,6 +45,51 @@ def prepare():
         raise RuntimeError('ssh_audit imported from %s, expected %s' % (got, want))
 
 
+def _start_cover():
+    """Line coverage of the code under test via sys.monitoring (each location reports once, then disables itself)."""
+    mon = sys.monitoring
+    tool = 3
+    hit = set()
+    prefix = os.path.join(os.path.realpath(REPO), 'src', 'ssh_audit') + os.sep
+
+    def on_line(code, line):
+        fn = code.co_filename
+        if fn.startswith(prefix):
+            hit.add('%s:%d' % (fn[len(prefix):], line))
+        return mon.DISABLE
+    try:
+        mon.use_tool_id(tool, 'simaudit-cover')
+    except ValueError:
+        return None
+    mon.register_callback(tool, mon.events.LINE, on_line)
+    mon.set_events(tool, mon.events.LINE)
+    return hit
+
+
+def executable_lines():
+    """{file: set(lines)} of every line that carries code in src/ssh_audit (from the compiled code objects)."""
+    out = {}
+    base = os.path.join(REPO, 'src', 'ssh_audit')
+    for name in sorted(os.listdir(base)):
+        if not name.endswith('.py'):
+            continue
+        with open(os.path.join(base, name), 'rb') as f:
+            try:
+                code = compile(f.read(), name, 'exec')
+            except SyntaxError:
+                continue
+        lines = set()
+        stack = [code]
+        while stack:
+            c = stack.pop()
+            for _s, _e, ln in c.co_lines():
+                if ln is not None and ln > 0:
+                    lines.add(ln)
+            stack.extend(k for k in c.co_consts if hasattr(k, 'co_lines'))
+        out[name] = lines
+    return out
+
+
 class _SimDate:
     """Stands in for datetime.date inside ssh_audit.policy (only today() is used)."""
 
@@ -119,6 +164,8 @@ def execute(plan):
         rec['assignments'] = [list(e.assignments) for e in world.executors]
         rec['rand_log'] = list(world.rand.log) if world.rand else []
         rec['unsupported'] = list(_kernel.UNSUPPORTED)
+        if cover is not None:
+            rec['lines'] = sorted(cover)
         rec['ntasks'] = len(k.tasks)
         if plan.get('keep_log'):
             rec['log'] = k.log[:5000]
@@ -154,6 +201,9 @@ def execute(plan):
     if pol is not None and hasattr(pol, 'date'):
         pol.date = _SimDate
     gc.disable()
+    cover = None
+    if plan.get('cover') and hasattr(sys, 'monitoring'):
+        cover = _start_cover()
     seams.activate(world, knobs)
     sys.stdout, sys.stderr = out, err
     sys.argv = [os.path.join(REPO, 'ssh-audit.py')] + argv
